@@ -350,6 +350,11 @@ impl FrameQueue {
             }
         }
 
+        if total_ack_size == 0 {
+            // No frame was newly acknowledged (duplicate or replayed ack), nothing to report
+            return;
+        }
+
         // Add to pending feedback data
         self.feedback_gen.put_ack_data(AckData { last_send_time_ms, total_ack_size, rate_limited });
     }
